@@ -15,6 +15,10 @@ Strings are hex of their UTF-8 bytes (`-` = empty string). Lists use `,` / `;`, 
   pnew <fresh|pooled>                            NewBrokerRowProtoConverter for the last cfg: brand-new converter, or the pooled one
   pconv <metric>                                 ConvertTo through that converter (its state is carried along)
   fnew <fresh|pooled>                            a flat decoder: brand-new, or the one the last request released
+  famscan <ts:fam:start:end>…                    the family iterator over one shard group, calculator given as a table
+  its <precision> <literal>                      parseTimestamp: the literal in milliseconds
+  inew                                           influx.Parse takes a RowBuilder (the pooled one: what the last request left)
+  iline <ok|badts|strfields|badtags|comment> <metric>   one line of the request through the shared RowBuilder
   fdec <metric>                                  BrokerRowFlatDecoder.DecodeTo of the raw flat row (no nil entries)
 
   <metric> = nil | n=<s> ns=<s> ts=<int> tags=<k:v|nil,…> f=<name:type:val|nil,…> cf=<-|min:max:sum:count:v;v;…:b;b;…>
@@ -25,6 +29,7 @@ import LinVerif.Model.Route
 import LinVerif.Model.Hash64
 import LinVerif.Model.InfluxField
 import LinVerif.Model.FlatRow
+import LinVerif.Model.InfluxStream
 import LinVerif.Model.C16Ident
 import LinVerif.Model.C16ProtoConv
 import LinVerif.Generated.C16
@@ -224,6 +229,7 @@ structure St where
   batch : List Stored   -- rows appended so far (slot i = position i)
   dec : FlatRow.Dec     -- the flat decoder (with its RowBuilder) as the last row left it
   pc : C16ProtoConv.PC  -- the pooled protobuf converter as the last request left it
+  irb : FlatRow.RB      -- the RowBuilder of influx.Parse as the last line / request left it
 
 def showFErr : FlatRow.FErr → String
   | .tooManyTags => "too-many-tags"
@@ -264,7 +270,7 @@ def lim0 : Limits :=
    Generated.C16.defaultMaxTagNameLength, Generated.C16.defaultMaxTagValueLength,
    Generated.C16.defaultMaxTagsPerMetric, Generated.C16.defaultMaxFieldsPerMetric⟩
 
-def St.init : St := ⟨⟨lim0, "", [], 0⟩, [], [], FlatRow.Dec.fresh, C16ProtoConv.PC.fresh lim0⟩
+def St.init : St := ⟨⟨lim0, "", [], 0⟩, [], [], FlatRow.Dec.fresh, C16ProtoConv.PC.fresh lim0, FlatRow.RB.fresh⟩
 
 def marks? (w : String) : Option (List Bool) :=
   if w = "-" then some [] else
@@ -386,6 +392,56 @@ def step (st : St) (ws : List String) : St × String :=
         | (d', .ok s) => ({ st with dec := d' }, showStored s)
         | (d', .error e) => ({ st with dec := d' }, "ferr " ++ showFErr e)
       | none => (st, "bad-op")
+    | _ => (st, "bad-op")
+  | "famscan" :: rows =>
+    -- famscan <ts:famTime:rangeStart:rangeEnd>…  one shard group in batch order (row id = position); the
+    -- calculator is the table the harness read off the real one
+    let row? (w : String) : Option (Int × Int × Int × Int) :=
+      match w.splitOn ":" with
+      | [a, b, c, d] => do
+        let a ← a.toInt?
+        let b ← b.toInt?
+        let c ← c.toInt?
+        let d ← d.toInt?
+        some (a, b, c, d)
+      | _ => none
+    match rows.mapM row? with
+    | some tbl =>
+      if tbl.isEmpty then (st, "bad-op") else
+      let look (t : Int) : Option (Int × Int × Int × Int) := tbl.find? (fun r => r.1 == t)
+      let C : Calc :=
+        { famTime := fun t => match look t with | some r => r.2.1 | none => 0
+          range := fun t => match look t with | some r => (r.2.2.1, r.2.2.2) | none => (1, 0) }
+      let brs : List BRow := (List.range tbl.length).zip tbl |>.map (fun (i, r) => ⟨i, simpleRow r.1, 0, false⟩)
+      let gs := familyGroupsCode C (insertionSort lessTs) brs
+      (st, "groups " ++ showList " " (gs.map (fun g => s!"{g.1}:{showIds g.2}")))
+    | none => (st, "bad-op")
+  | ["its", p, lit] =>
+    -- the timestamp literal of a line under the request's (lower-cased) precision
+    match lit.toInt? with
+    | some f =>
+      match InfluxStream.toMillis (InfluxStream.multiplierOf Generated.C16.influxPrecisionTable p) f with
+      | some ms => (st, toString ms)
+      | none => (st, "guessed")
+    | none => (st, "bad-op")
+  | ["inew"] => (st, "ok")
+  | "iline" :: kind :: rest =>
+    -- one line of a line-protocol request through the shared RowBuilder; `kind` = what the scanning layer
+    -- makes of the line, the metric = what it parses to. Where Reset stands is read from the source.
+    match metric? rest with
+    | some (some m) =>
+      match frow? m, (["ok", "badts", "strfields", "badtags", "comment"].contains kind) with
+      | some r, true =>
+        let ln : InfluxStream.ILine :=
+          { comment := kind == "comment", nameErr := false, name := r.name,
+            tagsErr := kind == "badtags", tags := r.tags,
+            fieldsErr := kind == "strfields", fields := r.fields,
+            tsErr := kind == "badts", ts := if r.ts = 0 then none else some r.ts }
+        match InfluxStream.lineStep Generated.C16.influxResetAtLoopTop st.cfg sortFlatTags H st.irb ln with
+        | (b, .stored s) => ({ st with irb := b }, showStored s)
+        | (b, .fatal) => ({ st with irb := b }, "fatal")
+        | (b, _) => ({ st with irb := b }, "rej")
+      | _, _ => (st, "bad-op")
     | _ => (st, "bad-op")
   | "evict" :: b :: a :: m :: "|" :: offs =>
     match b.toInt?, a.toInt?, marks? m, Proto.intList? offs with
